@@ -334,6 +334,10 @@ def families(k):
     fams.append(("Z0+Z1|11>", lambda phi: [("Z0", phi / 2), ("Z1", phi / 2)], 2, [[0, 0, 0, 1]], 2 * math.pi))
     # degenerate eigenspace of a non-diagonal operator: X0X1 = +1 on span{(|00>+|11>)/sqrt2, (|01>+|10>)/sqrt2}
     fams.append(("X0X1", lambda phi: [("X0 X1", phi)], 2, ["xx+"], -2 * math.pi))
+    # Hamiltonians that leave a qubit BELOW their highest index untouched (the state register is still 0 .. highest index):
+    # idle qubit 0, eigenspace Z1 = +1 = span{|00>, |10>};  gap at qubit 1, eigenvectors |000>, |010> of Z0 Z2 = +1
+    fams.append(("Z1-idle0", lambda phi: [("Z1", phi)], 2, [[1, 0, 0, 0], [0, 0, 1, 0]], -2 * math.pi))
+    fams.append(("Z0Z2-gap1", lambda phi: [("Z0 Z2", phi)], 3, [[1, 0, 0, 0, 0, 0, 0, 0], [0, 0, 1, 0, 0, 0, 0, 0]], -2 * math.pi))
     return fams
 
 
@@ -591,6 +595,8 @@ def shapes(tier, seed):
     ukinds = ("trotter1", "trotter2r", "trotter1s2", "circuit-all", "circuit-var")
     for k in (1, 2, 3) + ((4,) if T else ()):
         for fam, *_ in families(k):
+            if fam in ("Z1-idle0", "Z0Z2-gap1") and k > 2 and not T:
+                continue
             for m in range(2 ** k):
                 uk = ukinds if (T and k < 4) or k < 3 else [ukinds[(m + k + len(fam)) % len(ukinds)], ukinds[(m + 2 * k + 1) % len(ukinds)],
                                                            ukinds[(m + 3) % len(ukinds)]]
